@@ -82,10 +82,12 @@ inductive JPc where
 
 inductive EvOp where
   | get | put | putx | del | delp
+  | create | createx | write      -- create-then-fill puts (StoreFill.lean): truncate/create, exclusive create, fill
   deriving DecidableEq, Repr
 
 inductive EvRes where
   | ok | notfound | exists
+  | empty                         -- a file read between its creation and its filling
   deriving DecidableEq, Repr
 
 /-- One storage operation as seen by the engine: op, path, result, value read or written. -/
